@@ -193,6 +193,9 @@ func worker(r *ev.Run, spec string) {
 	case "enum":
 		t0 := time.Now()
 		runHours(r, wi, wn, deadline)
+		if wi == 0 {
+			runKillDates(r)
+		}
 		t1 := time.Now()
 		runConfig(r, k, wi, wn, deadline)
 		if wi == 0 {
